@@ -123,6 +123,7 @@ let find_key (s : string) (k : string) : int =
   go 0
 
 let fixed3 = ref true
+let fixedlim = ref false
 let memchr_on = ref true
 
 let eval_case (case : string) : string =
@@ -137,16 +138,16 @@ let eval_case (case : string) : string =
   let envl = if envs = "-" then [||] else Array.of_list (List.map prog_of_string (String.split_on_char ';' envs)) in
   let env (f : nat) = let i = int_of_nat f in if i < Array.length envl then Some envl.(i) else None in
   let prog = prog_of_string (String.sub case (kp + 6) (String.length case - kp - 6)) in
-  let cfg = { memchr = !memchr_on; fixed3 = !fixed3 } in
+  let cfg = { memchr = !memchr_on; fixed3 = !fixed3; fixedlim = !fixedlim } in
   let fuel = nat_of_int 1200 in
   match run_state cfg env fuel prog input !lim !det with
   | RPanic _ -> "Panic"
   | ROutOfFuel -> "Diverged"
   | (ROk s | RErr s) as r ->
-    Printf.sprintf "%s %s || %s" (match r with ROk _ -> "Ok" | _ -> "Err") (dump s) (outcome_string (outcome_of r))
+    Printf.sprintf "%s %s || %s" (match r with ROk _ -> "Ok" | _ -> "Err") (dump s) (outcome_string (outcome_of cfg r))
 
 let () =
-  Array.iter (fun a -> if a = "--unfixed3" then fixed3 := false; if a = "--no-memchr" then memchr_on := false) Sys.argv;
+  Array.iter (fun a -> if a = "--unfixed3" then fixed3 := false; if a = "--fixedlim" then fixedlim := true; if a = "--no-memchr" then memchr_on := false) Sys.argv;
   let n = ref 0 in
   read_lines (fun line ->
     if String.length line > 0 && line.[0] = '#' then print_endline line else
